@@ -226,10 +226,12 @@ TIscanMod ==
           asc2 == SelectSeq(fin.abs, LAMBDA p : InRange(p[1], E.l, E.le, E.r, E.re) /\ (IF E.rtl THEN LexLess(p[1], lastk) ELSE LexLess(lastk, p[1])))
           rest == IF E.rtl THEN Reverse(asc2) ELSE asc2
           b1 == GetRec(node, root, lastk).b
-          \* only the first write is judged for "the node under the cursor" (its border is taken in the tree the cursor saw)
-          under == nw = 1 /\ fin.structural /\ b1 \in fin.hitb IN
+          \* "the node under the cursor was modified": the border of the last returned key, in the tree the cursor saw, compared with itself
+          \* after the writes applied without renumbering (version word or permutation changed; a dead node keeps its id)
+          raw == ApplyRaw(E.mids, 1, [nd |-> node, rt |-> root, nid |-> nextId])
+          under == nw >= 1 /\ (raw.nd[b1].ver # node[b1].ver \/ raw.nd[b1].perm # node[b1].perm) IN
       /\ J("C10", "iscan-result", nw >= 1 => (Len(got1) >= 1 /\ IsPrefix(got1, full)), [exp |-> KeysOf(full), got |-> KeysOf(got1), rtl |-> E.rtl])
-      /\ J("C10", "iscan-early-abort-missed", (nw = 1 /\ E.ea /\ under) => (E.end = "WARN_CONCURRENT_OPERATIONS" /\ Len(got2) = 0),
+      /\ J("C10", "iscan-early-abort-missed", (nw >= 1 /\ E.ea /\ under) => (E.end = "WARN_CONCURRENT_OPERATIONS" /\ Len(got2) = 0),
             [under |-> under, lastk |-> lastk])
       /\ J("C10", "iscan-resume-after-write", (nw >= 1 /\ ~(E.ea /\ under)) =>
                \* written keys may or may not be seen (they were not stable during the iteration); everything else must be exactly the rest
